@@ -1,6 +1,14 @@
 ----------------------------------------- MODULE BlockRotation_mc -----------------------------------------
 EXTENDS BlockRotation
 Bound == TLCGet("level") <= MaxLevel
+\* states on the last level are checked but not expanded (their successors would be thrown away by Bound anyway)
+Live  == TLCGet("level") < MaxLevel
+RotateBlockB(b, k)        == Live /\ RotateBlock(b, k)
+RotateAssemblyB(k)        == Live /\ RotateAssembly(k)
+RotateAssemblyOffGridB(h) == Live /\ RotateAssemblyOffGrid(h)
+NextB == \/ \E b \in 1..NB, k \in -K..K : RotateBlockB(b, k)
+         \/ \E k \in -K..K : RotateAssemblyB(k)
+         \/ \E h \in -H..H : RotateAssemblyOffGridB(h)
 View  == vars                                  \* emission configs: one node per (configuration, steps so far)
 Emit  == PrintT(ToJson([lvl |-> TLCGet("level"), from |-> Vars, act |-> act',
                         to |-> [cfg |-> [b \in 1..Len(blocks') |-> CfgOf(blocks'[b])], tot |-> tot'], err |-> err']))
